@@ -364,7 +364,7 @@ _mk_export(16, 2 ** 15 - 1)
 _mk_export(32, 2 ** 31 - 1)
 
 
-def _tiff_reload(S, depth, full_scale):
+def _tiff_reload(S, depth, full_scale, scaling='auto'):
     """Real save_image writes a real TIFF (concrete image, real metadata tag) into a scratch directory; the pixel
     decoder (load_image) is then replaced by a stub returning arbitrary stored levels, and the real load() undoes
     the export scaling."""
@@ -373,19 +373,25 @@ def _tiff_reload(S, depth, full_scale):
     import tempfile
     _setup(S)
     orig_vals = np.array([[20.0, 21.5], [23.5, 22.0]])
-    smin, smax = 20.0, 23.5
+    smin, smax = (20.0, 23.5) if scaling == 'auto' else scaling
     im = data_grid(orig_vals.copy(), spacing=(0.1, 0.3), medium_index=1.33, illum_wavelen=0.66,
                    illum_polarization=(0, 1), noise_sd=0.08, name='holo')
     tmp = tempfile.mkdtemp(prefix='symx_c16_')
     try:
         fn = os.path.join(tmp, 'im.tif')
         real_np = io_mod.np
-        io_mod.save_image(fn, im, scaling='auto', depth=depth)
+        io_mod.save_image(fn, im, scaling=scaling, depth=depth)
         decoded = io_mod.load_image(fn, spacing=(0.1, 0.3), name='holo', channel='all')
         # stored levels: the export fills the whole range, so level 0 and full scale are present
         p, q = S.real('level_p', lo=0, hi=full_scale), S.real('level_q', lo=0, hi=full_scale)
         levels = np.empty(decoded.shape, dtype=object if S.sym else float)
-        flat = [0.0, p, full_scale, q]
+        if scaling == 'auto':
+            flat = [0.0, p, full_scale, q]
+        else:
+            # an explicit range wider than the data: the stored levels need not reach 0 or full scale
+            r, t = S.real('level_r', lo=0, hi=full_scale), S.real('level_t', lo=0, hi=full_scale)
+            S.assume(p < q, 'at least two different stored levels')
+            flat = [p, q, r, t]
         for k, idx in enumerate(np.ndindex(*decoded.shape)):
             levels[idx] = flat[k % 4]
         stub_result = decoded.copy(data=levels)
@@ -531,3 +537,12 @@ def _mk_h5(layout, text):
 _mk_h5('scalar', 'scalar metadata')
 _mk_h5('averaged', 'noise_sd a dimensionless DataArray (what load_average produces for one channel)')
 _mk_h5('channels', 'two illumination channels with per-channel wavelength, polarization and noise')
+
+
+@obligation('C16.tiff_reload.explicit_scaling', functions=[IO + 'load', IO + 'save_image', IO + '_save_im',
+                                                           IO + 'pack_attrs', IO + 'unpack_attrs'], max_paths=200, nvalid=2,
+            stubs=['load_image := four arbitrary stored levels in 0..255 (at least two different); PIL decoding outside the claim'],
+            bounds='2x2 image exported by the real save_image with scaling=(10, 30), 8 bit: on reload a stored level L '
+                   'becomes 10 + 20 L/255 whether or not the levels 0 and 255 occur in the file')
+def tiff_reload_explicit(S):
+    _tiff_reload(S, 8, 255.0, scaling=(10.0, 30.0))
